@@ -18,6 +18,10 @@ pub enum Op {
     RegUsize { sig: u8, flag: u8, value: usize },
     RegShutdown { sig: u8, status: i32, cond: u8 },
     RegSpy { sig: u8 },
+    /// an application action that - the first time it runs in the whole history - raises the very
+    /// signal it is handling once more. The signal is blocked while its handler runs, so the second
+    /// delivery starts only after the first one is over.
+    RegReraise { sig: u8 },
     /// unregister the k-th action registered so far (if still registered)
     Unreg { k: u8 },
     Store { flag: u8, v: bool },
@@ -36,6 +40,10 @@ pub struct C15Case {
     /// idle helper threads alive during the history (0-2) plus a watcher
     #[serde(default)]
     pub helpers: u8,
+    /// third-party no-op handlers installed with SA_NODEFER on every signal of the set before the
+    /// history starts (what they allowed for themselves must not leak into the library's handler)
+    #[serde(default)]
+    pub nodefer_prior: bool,
 }
 
 pub fn strategy() -> BoxedStrategy<C15Case> {
@@ -44,26 +52,29 @@ pub fn strategy() -> BoxedStrategy<C15Case> {
         2 => (0u8..7, 0u8..2, prop_oneof![Just(0usize), Just(1), Just(usize::MAX), any::<usize>()]).prop_map(|(sig, flag, value)| Op::RegUsize { sig, flag, value }),
         3 => (0u8..7, 0i32..256, 0u8..3).prop_map(|(sig, status, cond)| Op::RegShutdown { sig, status, cond }),
         2 => (0u8..7).prop_map(|sig| Op::RegSpy { sig }),
+        1 => (0u8..7).prop_map(|sig| Op::RegReraise { sig }),
         3 => (0u8..3, any::<bool>()).prop_map(|(flag, v)| Op::Store { flag, v }),
         2 => (0u8..12).prop_map(|k| Op::Unreg { k }),
         1 => (0u8..2, any::<usize>()).prop_map(|(flag, v)| Op::StoreUsize { flag, v }),
         6 => (0u8..7, prop::bool::weighted(0.35)).prop_map(|(sig, to_helper)| Op::Deliver { sig, to_helper }),
     ];
     // bias towards few signals so that actions pile up on one signal
-    (vec(op, 1..21), 1u8..4, prop_oneof![2 => Just(0u8), 1 => Just(1u8), 1 => Just(2u8)])
-        .prop_map(|(mut ops, nsig, helpers)| {
+    (vec(op, 1..21), 1u8..4, prop_oneof![2 => Just(0u8), 1 => Just(1u8), 1 => Just(2u8)], prop::bool::weighted(0.4))
+        .prop_map(|(mut ops, nsig, helpers, nodefer_prior)| {
             for o in ops.iter_mut() {
                 match o {
-                    Op::RegFlag { sig, .. } | Op::RegUsize { sig, .. } | Op::RegShutdown { sig, .. } | Op::RegSpy { sig } | Op::Deliver { sig, .. } => *sig %= nsig,
+                    Op::RegFlag { sig, .. } | Op::RegUsize { sig, .. } | Op::RegShutdown { sig, .. } | Op::RegSpy { sig } | Op::RegReraise { sig } | Op::Deliver { sig, .. } => *sig %= nsig,
                     _ => {}
                 }
             }
-            C15Case { ops, helpers }
+            C15Case { ops, helpers, nodefer_prior }
         })
         .boxed()
 }
 
 static OUT_FD: AtomicI32 = AtomicI32::new(-1);
+static RERAISED: std::sync::atomic::AtomicBool = std::sync::atomic::AtomicBool::new(false);
+extern "C" fn nodefer_noop(_: libc::c_int) {}
 static HELPER_TICKS: [AtomicUsize; 4] = [const { AtomicUsize::new(0) }; 4];
 
 extern "C" fn at_exit_marker() {
@@ -78,6 +89,17 @@ fn child(case: &C15Case, fd: i32) {
     crate::vsched::install();
     OUT_FD.store(fd, Ordering::SeqCst);
     unsafe { libc::atexit(at_exit_marker) };
+    RERAISED.store(false, Ordering::SeqCst);
+    if case.nodefer_prior {
+        for s in SIGSET.iter() {
+            unsafe {
+                let mut sa: libc::sigaction = std::mem::zeroed();
+                sa.sa_sigaction = nodefer_noop as usize;
+                sa.sa_flags = libc::SA_NODEFER | libc::SA_ONSTACK;
+                libc::sigaction(*s, &sa, std::ptr::null_mut());
+            }
+        }
+    }
     // helper threads: alive for the whole history, each waiting in sigsuspend; a watcher notices
     // when a single thread (rather than the process) has been terminated
     let main_tid = unsafe { libc::syscall(libc::SYS_gettid) } as i32;
@@ -176,6 +198,20 @@ fn child(case: &C15Case, fd: i32) {
                     Err(_) => res = "err",
                 }
             }
+            Op::RegReraise { sig } => {
+                let s = SIGSET[*sig as usize % 7];
+                let r = unsafe {
+                    signal_hook_registry::register(s, move || {
+                        if !RERAISED.swap(true, Ordering::SeqCst) {
+                            libc::raise(s);
+                        }
+                    })
+                };
+                match r {
+                    Ok(id) => ids.push(id),
+                    Err(_) => res = "err",
+                }
+            }
             Op::Unreg { k } => {
                 if !ids.is_empty() {
                     signal_hook::low_level::unregister(ids[*k as usize % ids.len()]);
@@ -229,6 +265,7 @@ enum Act {
     Usize(usize, usize),
     Shutdown(i32, usize),
     Spy(usize),
+    Reraise,
 }
 
 pub fn run_case(case: &C15Case) -> CaseReport {
@@ -264,6 +301,7 @@ pub fn run_case(case: &C15Case) -> CaseReport {
     let mut last_store_disarmed = false;
     let mut states: Vec<([bool; 3], [usize; 2])> = Vec::new();
     let mut removed_any = false;
+    let mut reraised = false;
     'outer: for (i, op) in case.ops.iter().enumerate() {
         match op {
             Op::RegFlag { sig, flag } => {
@@ -287,6 +325,11 @@ pub fn run_case(case: &C15Case) -> CaseReport {
                 actions[*sig as usize % 7].push((nreg, Act::Spy(spies)));
                 nreg += 1;
                 spies += 1;
+            }
+            Op::RegReraise { sig } => {
+                taken_model[*sig as usize % 7] = true;
+                actions[*sig as usize % 7].push((nreg, Act::Reraise));
+                nreg += 1;
             }
             Op::Unreg { k } => {
                 if nreg > 0 {
@@ -316,15 +359,27 @@ pub fn run_case(case: &C15Case) -> CaseReport {
                 if list.iter().any(|a| matches!(a, Act::Shutdown(..))) {
                     deliveries_with_shutdown += 1;
                 }
-                for a in &list {
-                    match a {
-                        Act::Flag(f) => bools[*f] = true,
-                        Act::Usize(f, v) => us[*f] = *v,
-                        Act::Spy(id) => expected_spies.push(*id),
-                        Act::Shutdown(status, c) => {
-                            if bools[*c] {
-                                death = Some((i, *status));
-                                break 'outer;
+                // a re-raise from inside the delivery stays pending until the delivery is over and
+                // is then delivered as one more, complete delivery of the same signal
+                let mut rounds = 1;
+                while rounds > 0 {
+                    rounds -= 1;
+                    for a in &list {
+                        match a {
+                            Act::Flag(f) => bools[*f] = true,
+                            Act::Usize(f, v) => us[*f] = *v,
+                            Act::Spy(id) => expected_spies.push(*id),
+                            Act::Reraise => {
+                                if !reraised {
+                                    reraised = true;
+                                    rounds += 1;
+                                }
+                            }
+                            Act::Shutdown(status, c) => {
+                                if bools[*c] {
+                                    death = Some((i, *status));
+                                    break 'outer;
+                                }
                             }
                         }
                     }
@@ -421,7 +476,7 @@ fn worker(def: &PropDef, args: &WorkerArgs) -> WorkerReport {
         .prop_map(|mut c| {
             let mut taken = [false; 7];
             c.ops.retain(|op| match op {
-                Op::RegFlag { sig, .. } | Op::RegUsize { sig, .. } | Op::RegShutdown { sig, .. } | Op::RegSpy { sig } => {
+                Op::RegFlag { sig, .. } | Op::RegUsize { sig, .. } | Op::RegShutdown { sig, .. } | Op::RegSpy { sig } | Op::RegReraise { sig } => {
                     taken[*sig as usize % 7] = true;
                     true
                 }
